@@ -75,7 +75,7 @@ def main(argv):
             gen_info = common.gen_and_build_model()
             proofs = common.build_proofs(prop)
             if tier == "thorough" and proofs["ok"]:
-                rc, out = common.sh(["lake", "env", "leanchecker", "AdbProofs.Properties." + prop], cwd=common.LEAN_DIR, timeout=3600)
+                rc, out = common.sh(["lake", "env", "leanchecker"] + ["AdbProofs.Properties." + m for m in proofs["modules"]], cwd=common.LEAN_DIR, timeout=3600)
                 proofs["leanchecker"] = "ok" if rc == 0 else out[-2000:]
                 if rc != 0:
                     proofs["ok"] = False
